@@ -88,7 +88,9 @@ func runGW(suite, tier string, seed uint64, out string, only int, trace bool, co
 				}
 				res.Samples = append(res.Samples, strings.Join(sb, " ; "))
 			}
-			if useModel && (hr.RefThr == 0 || os.Getenv("RGH_COMPARE_REFTHROTTLE") != "") && hr.RstThr == 0 && !hr.Mutated {
+			// (after two confirmed disagreements the correspondence is broken anyway: the remaining
+			// histories run with monitors only, which keeps a failing run short)
+			if useModel && res.MismatchCount < 2 && (hr.RefThr == 0 || os.Getenv("RGH_COMPARE_REFTHROTTLE") != "") && hr.RstThr == 0 && !hr.Mutated {
 				res.Distribution["model-compared"]++
 				step, impl, model, err := compareWithModel(driver, hr)
 				// Go's map iteration order (fan-out to two subscriptions of one connection, ...)
@@ -159,7 +161,8 @@ func compareWithModel(driver string, hr *historyResult) (int, string, string, er
 	var step int
 	var impl, model string
 	var err error
-	for ord := 0; ord < 6; ord++ {
+	// 0..5: one policy for every map range; from 6 on: an own pseudo-random order per range
+	for ord := 0; ord < 6+30; ord++ {
 		step, impl, model, err = compareWithModelOrd(driver, hr, ord)
 		if err != nil || step < 0 {
 			return step, impl, model, err
